@@ -39,6 +39,7 @@ from src.cli.linters.shared import (
 )
 from src.cli.main import cli
 from src.cli.utils import (
+    _group_level_config_path,
     execute_linting_on_paths,
     format_option,
     get_or_detect_project_root,
@@ -79,6 +80,8 @@ def _apply_orchestrator_config(
     orchestrator: "Orchestrator", config_file: str | None, rules: str | None, verbose: bool
 ) -> None:
     """Apply configuration to orchestrator."""
+    # The group-level --config option names the same kind of file as the command-level one
+    config_file = config_file or _group_level_config_path()
     if rules:
         _apply_inline_rules(orchestrator, rules, verbose)
     elif config_file:
